@@ -437,6 +437,7 @@ def step (d : D) (line : String) : IO D := do
     let ms := (fieldNat rest "maxseg").getD 0
     pure { d with maxSeg := ms, st := { (default : MState) with cfg := ⟨ms⟩ } }
   | "tail" :: _ => pure d
+  | "panic" :: rest => fail d "SPEC" ("the implementation panicked: " ++ " ".intercalate rest)
   | "concfail" :: rest => fail d "SPEC" (" ".intercalate rest)
   | "concsum" :: rest => pure { d with concChecks := d.concChecks + (fieldNat rest "checks").getD 0 }
   | "aliasfail" :: rest => fail d "SPEC" (" ".intercalate rest)
